@@ -650,8 +650,9 @@ def cap_i(chk, fx):
 
 
 # ------------------------------------------------------------------------------------------------ CAP-S
-def cap_s(chk, fx):
-    chk.rule("CAP-S", "push sites of the fixed-capacity parse stacks", 4)
+def cap_s(chk, fx, only=None):
+    """only: restrict the push sites that are judged (by name); the capacity expressions are always compared."""
+    chk.rule("CAP-S", "push sites of the fixed-capacity parse stacks", 4 if only is None else len(only))
     # capacity expression of the cvector stacks (patterns of the two selector specialisations)
     caps = set()
     for rq in ("ctpg::detail::parse_table_cursor_stack_type", "ctpg::detail::parser_value_stack_type"):
@@ -686,6 +687,8 @@ def cap_s(chk, fx):
              ("shift_recovery_token", P + "shift_recovery_token", "non-consuming"),
              ("reduce(r_elements=0)", P + "reduce", "non-consuming")]
     for name, q, cls in sites:
+        if only is not None and name not in only:
+            continue
         f = [g for g in fx.need(q) if q != P + "context_parse" or len(g.o["params"]) == 4][0]
         s = A.site(f)
         if cls == "initial":
